@@ -257,7 +257,12 @@ func main() {
 		for i, t := range bases {
 			inSubst := strings.Contains(t.src, "$(") || strings.Contains(t.src, "<(") || strings.Contains(t.src, ">(")
 			if t.class == "" && (inSubst || (i+int(o.Seed))%3 == 0) {
-				addPre(t, cancelTimes[(i+2*int(o.Seed))%len(cancelTimes)], preludes[(i+int(o.Seed))%len(preludes)])
+				ms := cancelTimes[(i+2*int(o.Seed))%len(cancelTimes)]
+				if inSubst {
+					// late enough for the program to be inside its substitution on every seed
+					ms = cancelTimes[3+(i+int(o.Seed))%4]
+				}
+				addPre(t, ms, preludes[(i+int(o.Seed))%len(preludes)])
 			}
 		}
 		// real external children x kill timeouts (cancel after the child has surely started)
